@@ -13,7 +13,7 @@ import tempfile
 
 from mc.core.runner import REPO
 
-CONFIG_TEMPLATE = '''grammar: data/grammar.lark
+CONFIG_TEMPLATE = '''grammar: {grammar}
 template_dirs:
 {tpl}  - data/cpp/template
 trans_mapping: data/i18n.yml
@@ -48,8 +48,13 @@ class Workspace:
         self.root = root
 
     @classmethod
-    def create(cls, root: str, input_globs=('proj/*.py',), output_dirs=('out/',), cache_enabled=True, template_override=False) -> 'Workspace':
+    def create(cls, root: str, input_globs=('proj/*.py',), output_dirs=('out/',), cache_enabled=True, template_override=False, project_grammar=False) -> 'Workspace':
         os.makedirs(os.path.join(root, 'proj'), exist_ok=True)
+        if project_grammar:
+            # the project keeps its own copy of the grammar (config.yml: grammar)
+            os.makedirs(os.path.join(root, 'gram'), exist_ok=True)
+            shutil.copy(os.path.join(REPO, 'data', 'grammar.lark'), os.path.join(root, 'gram', 'grammar.lark'))
+            os.utime(os.path.join(root, 'gram', 'grammar.lark'), (BASE_MTIME, BASE_MTIME))
         if not os.path.lexists(os.path.join(root, 'data')):
             os.symlink(os.path.join(REPO, 'data'), os.path.join(root, 'data'))
         ws = cls(root)
@@ -66,7 +71,8 @@ class Workspace:
     def write_config(self, input_globs, output_dirs, cache_enabled=True, name='config.yml') -> None:
         di = '' if cache_enabled else 'di:\n  rogw.tranp.cache.cache.CacheSetting: mc.tranp.workspace.cache_disabled\n'
         tpl = '  - tpl\n' if os.path.isdir(os.path.join(self.root, 'tpl')) else ''
-        text = CONFIG_TEMPLATE.format(tpl=tpl, globs='\n'.join(f'  - {g}' for g in input_globs), outs='\n'.join(f'  - {o}' for o in output_dirs), di=di)
+        grammar = 'gram/grammar.lark' if os.path.exists(os.path.join(self.root, 'gram', 'grammar.lark')) else 'data/grammar.lark'
+        text = CONFIG_TEMPLATE.format(grammar=grammar, tpl=tpl, globs='\n'.join(f'  - {g}' for g in input_globs), outs='\n'.join(f'  - {o}' for o in output_dirs), di=di)
         with open(os.path.join(self.root, name), 'w') as f:
             f.write(text)
         os.utime(os.path.join(self.root, name), (BASE_MTIME, BASE_MTIME))
@@ -132,7 +138,7 @@ class Workspace:
 
     # ------------------------------------------------------------------ observing
 
-    def files(self, with_mtime_for=('proj/',)):
+    def files(self, with_mtime_for=('proj/', 'gram/', 'shared/')):
         """{relpath: (sha1, mtime or None)} for every regular file (the data symlink is not followed)."""
         out = {}
         for dp, dns, fns in os.walk(self.root):
@@ -142,7 +148,7 @@ class Workspace:
                 rel = os.path.relpath(p, self.root)
                 with open(p, 'rb') as f:
                     sha = hashlib.sha1(f.read()).hexdigest()
-                mt = int(os.path.getmtime(p)) if rel.startswith(tuple(with_mtime_for)) else None
+                mt = os.path.getmtime(p) if rel.startswith(tuple(with_mtime_for)) else None   # exact: sub-second differences are state
                 out[rel] = (sha, mt)
         return out
 
